@@ -22,10 +22,13 @@ func (c *FnVC) atAssertsIn(b *ssa.BasicBlock, name, tag string, args []string, a
 	if c.ct == nil {
 		return
 	}
+	matched := 0
 	for _, at := range c.ct.At {
 		if !strings.Contains(name, at.Callee) {
 			continue
 		}
+		matched++
+		clauseNo := matched
 		if at.Nth != 0 && at.Nth != c.callN[name] {
 			continue
 		}
@@ -41,7 +44,16 @@ func (c *FnVC) atAssertsIn(b *ssa.BasicBlock, name, tag string, args []string, a
 				c.errorf("%s: at call %s: %v", c.fnName(), at.Callee, err)
 				continue
 			}
-			c.obligeNamed("at", fmt.Sprintf("at@%s.c%d", tag, j+1), t, c.reach[b], "assertion at call of "+name+": "+exprString(cj), nil)
+			// the k-th clause matching this site gets its own name (two clauses on one call
+			// site must not share obligation names)
+			on := fmt.Sprintf("at@%s.c%d", tag, j+1)
+			if clauseNo > 1 {
+				on = fmt.Sprintf("at@%s.a%d.c%d", tag, clauseNo, j+1)
+			}
+			if at.C.Tag != "" {
+				on = fmt.Sprintf("at@%s.%s.c%d", tag, at.C.Tag, j+1)
+			}
+			c.obligeNamed("at", on, t, c.reach[b], "assertion at call of "+name+": "+exprString(cj), nil)
 			// a proved assertion is a fact for everything after it (as with the implicit
 			// safety obligations): it can serve as a cut / staging lemma
 			c.assume(imp(c.reach[b], t))
